@@ -64,6 +64,17 @@ def nets(tier, seed):
                               (["H2D+", "e-"], ["H", "H", "D"])])
     yield N("ice", [(["CO"], ["#CO"]), (["C", "O"], ["CO"]), (["H", "H"], ["H2"]), (["#CO"], ["CO"]), (["H"], ["#H"]), (["#H", "#H"], ["#H2"]), (["#H2"], ["H2"])])
     yield N("repeated-element-formula", [(["CH3OH"], ["CH3", "OH"]), (["C", "H"], ["CH"]), (["O", "H"], ["OH"]), (["CH3", "H"], ["CH4"]), (["H", "H"], ["H2"])])
+    yield N("large-molecules", [(["C", "C10H2"], ["C11", "H2"]), (["C11", "H"], ["HC11"]), (["C6H12", "O"], ["C6H11", "OH"]), (["H", "H"], ["H2"]), (["HC11", "O"], ["C10H", "CO"])])
+
+    def upper():
+        fresh_species_state()
+        from naunet.species import Species
+        Species.set_known_elements(["H", "HE", "C", "O", "SI", "E"])
+        Species.set_known_pseudoelements([])
+        Species._replacement = {"HE": "He", "SI": "Si", "E": "e"}
+        rs = [(["SI", "SI"], ["SI2"]), (["SI2", "C"], ["SI2C"]), (["SI", "O"], ["SIO"]), (["H", "H"], ["H2"]), (["HE+", "H"], ["HE", "H+"]), (["SI2C", "H"], ["SI2", "CH"]), (["C", "O"], ["CO"])]
+        return Network([mk_reaction(a, b) for a, b in rs], elements=["H", "HE", "C", "O", "SI", "E"], pseudo_elements=[])
+    yield "upper-case-replacement", upper
     yield N("missing-atomic-O", [(["CO", "H"], ["HCO"]), (["C", "H"], ["CH"]), (["H", "H"], ["H2"]), (["O2", "C"], ["CO", "CO"])])
     yield N("grains", [(["H", "H"], ["H2"]), (["GRAIN0", "e-"], ["GRAIN-"]), (["GRAIN-", "H+"], ["GRAIN0", "H"]), (["H+", "e-"], ["H"])])
 
@@ -107,6 +118,15 @@ def check(tier, seed):
             except ValueError:
                 comp = None
             names = [next(iter(e.element_count)) for e in elems]
+            if comp is not None:
+                # the element totals the renormalisation starts from are the count-weighted sums of the abundances
+                for n_ in names:
+                    try:
+                        got_t, want_t = elem_abund(y, ints[f"IDX_ELEM_{n_}"]), sum(Fraction(c[0].get(n_, 0)) * v for c, v in zip(comp, y))
+                    except Exception:
+                        continue
+                    if got_t != want_t:
+                        V(f"element-total: GetElementAbund({n_}) = {float(got_t):.6g}, count-weighted sum of the abundances = {float(want_t):.6g}")
             # reference ratios: perturb the current ones
             H = elem_abund(y, ints["IDX_ELEM_H"])
             for trial in ("perturbed", "identity"):
